@@ -419,6 +419,11 @@ uint64_t cmi_hashheap_enqueue(struct cmi_hashheap *hp,
     const uint64_t hc = ++hp->heap_count;
     hp->item_counter += 1u;
     if (hashkey == 0u) {
+        /* Generate a key, skipping any the caller has supplied that is still in use */
+        while (cmi_hash_find_index(hp, hp->item_counter) != 0u) {
+            hp->item_counter += 1u;
+        }
+
         hashkey = hp->item_counter;
     }
 
